@@ -240,6 +240,10 @@ def shrink(impl, model, lines, sig):
             return lines
         lines = small
     lines = vlib.shrink_list(lines, fails, max_steps=150)
+    if sig.startswith('hang@'):
+        # a hang is shrunk over whole script lines only: cutting inside module texts could turn the history into an
+        # ill-formed module on which the library loops for a reason of its own (same signature, different cause)
+        return lines
     return shrink_payloads(lines, fails)
 
 
